@@ -177,6 +177,24 @@ pub fn run(tier: Tier) -> i32 {
                 }
             }
         }
+        // 2a. the header's data format may also be 1 (accepted by the RDH checks): words are packed as in format 2, and
+        //     every message points at a 10-byte word slot
+        let base_fmt2 = w.links.iter().all(|l| l.iter().all(|p| p.packet.rdh.data_format == 2));
+        if !w.stave && base_fmt2 {
+            for salt in 0..2u64 {
+                let mut b = garble(&base, 60 + salt, 0);
+                let (walked, _) = fp_model::stream::walk(&b);
+                for wk in &walked {
+                    b[wk.offset as usize + 24] = 1;
+                }
+                let bytes = Arc::new(b);
+                for mode in [Mode::SanityIts, Mode::AllIts] {
+                    for f in filters.iter().take(2) {
+                        cases.push(Case { label: format!("{} with data format 1, garbled salt {salt}", w.name), bytes: bytes.clone(), mode, filter: *f, pipe: salt % 2 == 1, cli: salt == 0 && f.is_none() });
+                    }
+                }
+            }
+        }
         // 2b. empty-payload packets (offset to the next RDH = 64) of a foreign and of the same link in between: they
         //     are stepped over by the scanner in RDH-only modes and under a filter; offsets behind them must not shift
         for what in [0u8, 1] {
